@@ -304,6 +304,15 @@ func (idx *IVFPQIndex) Add(vector VectorNode) error {
 	}
 
 	// Find nearest IVF centroid
+	// Re-adding an ID that is still soft-deleted (update = remove + add):
+	// purge the stale entry first, otherwise the new vector would stay hidden
+	// behind the tombstone and be dropped by the next Flush.
+	if idx.deletedNodes.Contains(vector.ID()) {
+		if err := idx.flushLocked(); err != nil {
+			return err
+		}
+	}
+
 	listIdx := FindNearestCentroidIndex(vector.Vector(), idx.centroids, idx.distance)
 
 	// Compute residual = vector - centroid
@@ -409,6 +418,11 @@ func (idx *IVFPQIndex) Flush() error {
 	idx.mu.Lock()
 	defer idx.mu.Unlock()
 
+	return idx.flushLocked()
+}
+
+// flushLocked is Flush without taking the lock; the caller must hold the write lock.
+func (idx *IVFPQIndex) flushLocked() error {
 	// Quick exit if nothing to flush
 	deletedCount := int(idx.deletedNodes.GetCardinality())
 	if deletedCount == 0 {
